@@ -1726,6 +1726,8 @@ func (gs *GossipSubRouter) heartbeat() {
 	for topic, peers := range gs.mesh {
 		prunePeer := func(p peer.ID) {
 			gs.tracer.Prune(p, topic)
+			// leaving a mesh changes the peer's score: the other topics are judged with the new one
+			delete(scores, p)
 			delete(peers, p)
 			gs.addBackoff(p, topic, false)
 			topics := toprune[p]
@@ -1735,6 +1737,7 @@ func (gs *GossipSubRouter) heartbeat() {
 		graftPeer := func(p peer.ID) {
 			gs.logger.Debug("HEARTBEAT: Add mesh link to peer in topic", "peer", p, "topic", topic)
 			gs.tracer.Graft(p, topic)
+			delete(scores, p)
 			peers[p] = struct{}{}
 			topics := tograft[p]
 			tograft[p] = append(topics, topic)
